@@ -102,9 +102,15 @@ def mk_factor(m, rng, kind, R, D):
 COND_CLASSES = ["full", "diag", "identity", "identitydiag"]
 
 
-def mk_cond(m, rng, cls, R, Dy, Dx, give=None):
+def mk_cond(m, rng, cls, R, Dy, Dx, give=None, b_none=False, tag=""):
     """linear-Gaussian conditional of the given class; identity classes need Dy == Dx.
-    give: which covariance arguments the constructor receives (Sigma | Lambda | all); drawn when None"""
+    give: which covariance arguments the constructor receives (Sigma | Lambda | all); drawn when None.
+    b_none: the offset is left to its default (zero).  A case tag can force both: '/giveL', '/giveA', '/bnone'."""
+    if "giveL" in tag:
+        give = "Lambda"
+    elif "giveA" in tag:
+        give = "all"
+    b_none = b_none or ("bnone" in tag)
     if give is None:
         give = ("Sigma", "Lambda", "all", "Sigma")[int(rng.integers(0, 4))]
     diag = cls in ("diag", "identitydiag")
@@ -117,9 +123,9 @@ def mk_cond(m, rng, cls, R, Dy, Dx, give=None):
         reg = m.condid(R, Dy, diag=diag, **kw)
         M = np.tile(np.eye(Dy)[None], (R, 1, 1)); b = np.zeros((R, Dy))
     else:
-        M = rng.standard_normal((R, Dy, Dx)); b = rng.standard_normal((R, Dy))
+        M = rng.standard_normal((R, Dy, Dx)); b = np.zeros((R, Dy)) if b_none else rng.standard_normal((R, Dy))
         kw = dict(Sigma=S) if give == "Sigma" else (dict(Lambda=L) if give == "Lambda" else dict(Sigma=S, Lambda=L, ln_det_Sigma=ld))
-        reg = m.cond(R, Dy, Dx, M, b, diag=diag, **kw)
+        reg = m.cond(R, Dy, Dx, M, None if b_none else b, diag=diag, **kw)
     return Obj(reg, M=M, b=b, Sigma=S, Lambda=L, ln_det_Sigma=ld, R=R, Dy=Dy, Dx=Dx, cls=cls)
 
 
